@@ -20,6 +20,7 @@ RULE = ('frames with 1-5 locals of which 1-2 are hostile (bytes, datetime, deque
         'tracepoints on the same line (separate triggers or merged actions), optionally also logging the hostile value through a logger that writes UTF-8 lines; non-trivial = a hostile value was in '
         'reach of a due action; distinct by (hostile class, placement, tracepoint count, sibling skeleton)')
 ASSUMPTIONS = ['placeholder text for an unrenderable value may be anything', 'children of hostile values are not required']
+RULE += "; hostile classes added in round 7: text that refuses formatting (a str subclass with a raising __format__, as a value and as what __str__ answers), an instance - also as the frame's self - of a class whose __name__ is not text and has no text form"
 REQUIRE = {'due_actions': 300, 'hostile_classes_seen': 40, 'multi_tracepoint_events': 50, 'capture_cases': 20,
            'watch_cases': 20, 'logged_cases': 100, 'logger_rejected_the_text': 4,
            'churn_cases_with_interleaving': 10}
